@@ -268,6 +268,105 @@ pub fn run_c10(ctx: &Ctx) -> Report {
     });
     rep.merge(r);
 
+    // ---- commands the library does not know (COM_STMT_RESET, COM_STMT_FETCH, COM_RESET_CONNECTION,
+    //      COM_SET_OPTION, COM_CHANGE_USER ... - a client may send them; the unchanged library ends the
+    //      connection, a library that learns one of them goes on) in the middle of a statement history,
+    //      addressed at live, closed and never-prepared ids. Whatever the library makes of the command
+    //      itself, an id is usable from its PREPARE reply to its CLOSE and at no other time: an EXECUTE
+    //      for an id that is dead by that rule never reaches the shim.
+    let n = if ctx.miri { 2 } else { ctx.n(600, 20_000) };
+    let r = par_cases(ctx, "C10", "foreign-commands", n, |rng, i, rep| {
+        let ids = [3u32, 9, 0xFFFF_FFFF, 0, 0x0100_0003];
+        let mut cmds = Vec::new();
+        let mut scripts = Vec::new();
+        let mut live = std::collections::BTreeSet::new();
+        let mut expected_cbs = 1usize; // after_authentication
+        // a legal prefix: prepares, executions of live ids, closes
+        for step in 0..rng.range(1, 6) {
+            let id = ids[rng.usize(ids.len())];
+            match rng.below(3) {
+                0 => {
+                    cmds.push(Cmd::prepare(format!("s{}", step).as_bytes()));
+                    scripts.push(Script::PrepOk { id, params: vec![], cols: vec![] });
+                    live.insert(id);
+                    expected_cbs += 1;
+                }
+                1 if live.contains(&id) => {
+                    cmds.push(Cmd::execute_plain(id, &[], false));
+                    scripts.push(Script::Q(QProg::completed(1, 0)));
+                    expected_cbs += 1;
+                }
+                _ if live.contains(&id) => {
+                    cmds.push(Cmd::close(id));
+                    live.remove(&id);
+                    expected_cbs += 1;
+                }
+                _ => {}
+            }
+        }
+        let dead: Vec<u32> = ids.iter().copied().filter(|x| !live.contains(x)).collect();
+        if dead.is_empty() {
+            rep.counters.inc("foreign_command_cases_without_a_dead_id");
+            return;
+        }
+        let target = if rng.chance(2, 3) { dead[rng.usize(dead.len())] } else { ids[rng.usize(ids.len())] };
+        let (fname, mut payload): (&str, Vec<u8>) = match i % 7 {
+            0 | 1 => ("COM_STMT_RESET", vec![0x1a]),
+            2 => ("COM_STMT_FETCH", vec![0x1c]),
+            3 => ("COM_RESET_CONNECTION", vec![0x1f]),
+            4 => ("COM_SET_OPTION", vec![0x1b, 0x00, 0x00]),
+            5 => ("COM_CHANGE_USER", vec![0x11, b'u', 0, 0, b'd', 0]),
+            _ => ("COM_DEBUG", vec![0x0d]),
+        };
+        if matches!(payload[0], 0x1a | 0x1c) {
+            payload.extend_from_slice(&target.to_le_bytes());
+            if payload[0] == 0x1c {
+                payload.extend_from_slice(&1u32.to_le_bytes());
+            }
+        }
+        cmds.push(Cmd::new(Kind::Ping, payload));
+        // behind it: the dead ids are used
+        for _ in 0..rng.range(1, 3) {
+            let id = dead[rng.usize(dead.len())];
+            if rng.bool() {
+                cmds.push(Cmd::long_data(id, 0, b"late"));
+            }
+            cmds.push(Cmd::execute_plain(id, &[], false));
+            scripts.push(Script::Q(QProg::completed(2, 0)));
+        }
+        let mut case = Case::new(cmds, scripts);
+        vary_transport(rng, &mut case);
+        case.over_tls = false;
+        let obs = run_case(&case);
+        rep.evaluations += 1;
+        rep.counters.class(format!("foreign command {} addressed at a {} id", fname, if live.contains(&target) { "live" } else { "dead" }));
+        if harness_panic(&obs, rep) {
+            return;
+        }
+        let d = || J::obj().set("commands", kinds_summary(&case.cmds)).set("foreign_command", fname).set("addressed_at", target).set("dead_ids", format!("{:?}", dead)).set("callbacks", obs.log.cbs.iter().map(|c| J::s(cb_summary(c))).collect::<Vec<_>>()).set("outcome", obs.outcome.describe());
+        if i < 2 {
+            rep.sample(d());
+        }
+        if let Outcome::Panic { file, line, msg } = &obs.outcome {
+            rep.violations.push(viol("C10", format!("C10 {}", panic_signature(file, *line, msg)), format!("panic in a statement history with a command the library does not know: {}", obs.outcome.describe()), d()));
+            return;
+        }
+        for c in obs.log.cbs.iter().skip(expected_cbs) {
+            if let CbKind::Execute { id, .. } = &c.kind {
+                if dead.contains(id) {
+                    rep.violations.push(viol("C10", "C10 dead-id-executed".into(), format!("on_execute({}) reached the shim although that id was {} when the EXECUTE arrived (behind a {})", id, if ids.contains(id) { "closed or never prepared" } else { "unknown" }, fname), d()));
+                    return;
+                }
+            }
+        }
+        if obs.outcome.is_err() {
+            rep.counters.inc("foreign_command_histories_ended_with_an_error");
+        } else {
+            rep.counters.inc("foreign_command_histories_that_went_on");
+        }
+    });
+    rep.merge(r);
+
     // ---- many statements open at once (50-600, ids anywhere in the 32-bit range incl. its edges),
     //      closed, re-prepared and executed in random order: the registry must behave like a map
     //      however full it is and in whatever order entries leave it
@@ -481,9 +580,9 @@ pub fn run_c16(ctx: &Ctx) -> Report {
             // callback drops the parser unused, only counts the items, or takes just the first one.
             // What the statement remembers for later executions must not depend on that.
             let script = if rng.chance(1, 5) {
-                let m = rng.below(3) as u8;
+                let m = rng.below(8) as u8;
                 rep.counters.inc("executions_whose_parameters_were_not_all_read");
-                pattern.push_str(["(ignored) ", "(counted) ", "(first) "][m as usize]);
+                pattern.push_str(["(ignored) ", "(counted) ", "(first) ", "(nth 1) ", "(skip 1) ", "(step_by 2) ", "(last) ", "(nth 2, then the rest) "][m as usize]);
                 Some(Script::Q(QProg { colsets: vec![], ops: vec![QOp::Params(m), QOp::Completed(0, 0)], on_err: OnErr::Drop }))
             } else {
                 None
@@ -708,7 +807,16 @@ pub fn run_c17(ctx: &Ctx) -> Report {
                         rep.counters.inc("second_execution_must_see_inline_values");
                     }
                     pending[k].clear();
-                    cv.push(MCmd::Execute { id: ids[k], params, send_types: true }, None);
+                    // a backend may look at some of the parameters only (`nth`, `skip`, `step_by`, `last`,
+                    // `nth` and then the rest): those it looks at are the ones at those positions,
+                    // whichever of the others came as long data
+                    let script = if rng.chance(1, 4) {
+                        rep.counters.inc("executions_read_through_iterator_adaptors");
+                        Some(Script::Q(QProg { colsets: vec![], ops: vec![QOp::Params(2 + rng.below(6) as u8), QOp::Completed(0, 0)], on_err: OnErr::Drop }))
+                    } else {
+                        None
+                    };
+                    cv.push(MCmd::Execute { id: ids[k], params, send_types: true }, script);
                     shape.push_str(&format!("E{} ", k));
                 }
             }
